@@ -3,11 +3,11 @@
 # own build directory, so that /repo and /verif/build stay untouched.  One line per seed in build/seed_matrix.log.
 # optional argument: a shell pattern of seed ids (e.g. "*-r[23]-*")
 cd /verif
-W=/tmp/rws-matrix-repo; B=/tmp/rws-matrix-build
+W=/tmp/rws-matrix-repo$MATRIX_SUFFIX; B=/tmp/rws-matrix-build$MATRIX_SUFFIX
 git -C /repo worktree remove --force $W 2>/dev/null; rm -rf $W $B $S
 git -C /repo worktree add -q --detach $W HEAD || exit 2
 # the checks run from a SNAPSHOT of /verif, so that contracts can be edited while a matrix runs
-S=/tmp/rws-matrix-verif; rm -rf $S; mkdir -p $S; rsync -a --exclude build --exclude .git --exclude seeded --exclude seeded_obsolete --exclude harmless --exclude "falsify/docroot" /verif/ $S/
+S=/tmp/rws-matrix-verif$MATRIX_SUFFIX; rm -rf $S; mkdir -p $S; rsync -a --exclude build --exclude .git --exclude seeded --exclude seeded_obsolete --exclude harmless --exclude "falsify/docroot" /verif/ $S/
 mkdir -p $B
 for d in seeded/${1:-*}/; do
   id=$(basename $d); p=${id%%-*}
